@@ -3,7 +3,7 @@ from runner import Stream
 import vlib, gen_manifest, fuzzgen
 from parsers_common import model_lines, pkgs_of
 
-PROP_MODULES = ["Vlsp.Props.C05", "Vlsp.Props.C05Go"]
+PROP_MODULES = ["Vlsp.Props.C05", "Vlsp.Props.C05Go", "Vlsp.Props.C05Gha"]
 RULE = ("(a) structural part on the implementation, for ANY document: every PackageInfo returned by the seven parsers on grammar-aware "
         "mutations of valid manifests (truncation at every character, token splicing, CR/CRLF, Unicode injection, scalar restyling) must have "
         "start <= end <= len, both on character boundaries, no line break inside, and (line, column) must denote the byte offset start; the "
